@@ -28,6 +28,21 @@ theorem tie_prefix_source (root source : List Nat) :
   · simp [h]
   · simp [h]
 
+/-- the same function as it appears in unit RsTypes (where `set_source_root`, `into_sourcemap`, `flatten`, `rewrite`
+call it): same proof, on the other generated constant -/
+theorem tie_prefix_source_types (root source : List Nat) :
+    Gen.RsTypes.SourceMap.prefix_source root source = .ok (SMap.prefixSource root source) := by
+  unfold Gen.RsTypes.SourceMap.prefix_source SMap.prefixSource
+  simp only [stripSuffix_slash, abs_literals, SMap.isPrefixOf, List.any_cons, List.any_nil, Bool.or_false, Bool.or_assoc]
+  by_cases h : (!source.isEmpty && (List.isPrefixOf [47] source || (List.isPrefixOf [104, 116, 116, 112, 58] source || List.isPrefixOf [104, 116, 116, 112, 115, 58] source))) = true
+  · simp [h]
+  · simp [h]
+
+/-- the two generated copies of `prefix_source` (units RsPrefix and RsTypes) are the same function -/
+theorem prefix_source_units_agree (root source : List Nat) :
+    Gen.RsTypes.SourceMap.prefix_source root source = Gen.RsPrefix.SourceMap.prefix_source root source := by
+  rw [tie_prefix_source_types, tie_prefix_source]
+
 /-- it never fails -/
 theorem prefix_source_total (root source : List Nat) : ∃ r, Gen.RsPrefix.SourceMap.prefix_source root source = .ok r :=
   ⟨_, tie_prefix_source root source⟩
@@ -35,5 +50,11 @@ theorem prefix_source_total (root source : List Nat) : ∃ r, Gen.RsPrefix.Sourc
 example : Gen.RsPrefix.SourceMap.prefix_source [97, 47] [98] = .ok [97, 47, 98] := by rw [tie_prefix_source]; rfl
 example : Gen.RsPrefix.SourceMap.prefix_source [97] [47, 98] = .ok [47, 98] := by rw [tie_prefix_source]; rfl
 
+example : Gen.RsTypes.SourceMap.prefix_source [97, 47] [98] = .ok [97, 47, 98] := by rw [tie_prefix_source_types]; rfl
+example : Gen.RsTypes.SourceMap.prefix_source [97] [104, 116, 116, 112, 58, 98] = .ok [104, 116, 116, 112, 58, 98] := by
+  rw [tie_prefix_source_types]; rfl
+
 end SmVerif.Tie.Prefix
 #print axioms SmVerif.Tie.Prefix.tie_prefix_source
+#print axioms SmVerif.Tie.Prefix.tie_prefix_source_types
+#print axioms SmVerif.Tie.Prefix.prefix_source_units_agree
